@@ -744,6 +744,8 @@ class _GzipMessageDelegate(httputil.HTTPMessageDelegate):
         self._connection = connection
         self._decompressed_body_size = 0
         self._decompressor: GzipDecompressor | None = None
+        # True once any compressed data has been fed to the decompressor.
+        self._compressed_data_seen = False
 
     def headers_received(
         self,
@@ -762,6 +764,8 @@ class _GzipMessageDelegate(httputil.HTTPMessageDelegate):
     async def data_received(self, chunk: bytes) -> None:
         if self._decompressor:
             compressed_data = chunk
+            if compressed_data:
+                self._compressed_data_seen = True
             while compressed_data:
                 decompressed = self._decompressor.decompress(
                     compressed_data, self._chunk_size
@@ -796,6 +800,17 @@ class _GzipMessageDelegate(httputil.HTTPMessageDelegate):
                 raise ValueError(
                     "decompressor.flush returned data; possible truncated input"
                 )
+            if self._compressed_data_seen and not self._decompressor.eof:
+                # flush() does not complain about input that stops in
+                # the middle of the compressed stream; only the
+                # end-of-stream marker tells a complete body from a
+                # truncated one. (A message without any body data, such
+                # as the response to a HEAD request, is not an error.)
+                # The message cannot be finished: tell the delegate so
+                # (the connection is closed on HTTPInputError), as is
+                # done for errors found in data_received.
+                self._delegate.on_connection_close()
+                raise httputil.HTTPInputError("truncated gzip body")
         return self._delegate.finish()
 
     def on_connection_close(self) -> None:
